@@ -42,6 +42,10 @@ type env struct {
 	sticky []string
 }
 
+// fedUser stands for a signed-in end user that has no e-mail address (a federated identity only): user.Current returns a
+// user whose Email is empty.
+const fedUser = "fed:"
+
 type ident struct {
 	User      string // front-end (cookie) user: X-AppEngine-User-Email
 	UserAdmin bool
@@ -167,7 +171,7 @@ func (e *env) callN(n int64, svc, method, path string, id ident, hdr map[string]
 				if rl[1] == "admin" && !id.UserAdmin {
 					return reply{Status: 403, Body: []byte("front end: admin login required"), ReqID: reqID, Front: true}
 				}
-				if rl[1] == "required" && id.User == "" {
+				if rl[1] == "required" && id.User == "" { // (fedUser is signed in)
 					return reply{Status: 302, Body: []byte("front end: login required"), ReqID: reqID, Front: true}
 				}
 				break
@@ -184,13 +188,19 @@ func (e *env) callN(n int64, svc, method, path string, id ident, hdr map[string]
 	}
 	req.Header.Set("X-AppEngine-API-Ticket", ticket)
 	req.Header.Set("X-AppEngine-Request-Log-Id", reqID)
-	if id.User != "" {
+	if id.User == fedUser {
+		req.Header.Set("X-AppEngine-Federated-Identity", "https://idp.example/users/9")
+		req.Header.Set("X-AppEngine-Federated-Provider", "https://idp.example/")
+		req.Header.Set("X-AppEngine-Auth-Domain", "example.com")
+		req.Header.Set("X-AppEngine-User-Is-Admin", "0")
+	} else if id.User != "" {
 		req.Header.Set("X-AppEngine-User-Email", id.User)
 		// user.User.ID is only populated for Google accounts: two of the test users have none
 		if id.User != "u1@example.com" && id.User != "u2@example.com" {
 			req.Header.Set("X-AppEngine-User-Id", "uid-"+id.User)
 		}
-		req.Header.Set("X-AppEngine-Auth-Domain", "gmail.com")
+		// the app's auth domain is the domain of the test users (user.User.String() then differs from Email)
+		req.Header.Set("X-AppEngine-Auth-Domain", "example.com")
 		if id.UserAdmin {
 			req.Header.Set("X-AppEngine-User-Is-Admin", "1")
 		} else {
@@ -556,6 +566,11 @@ func (h *hist) bodyFor(target int) []byte {
 }
 
 func (h *hist) opUStart(user, method, url string, target int, fs []string, raw bool) {
+	wireUser := user
+	fed := user == fedUser
+	if fed {
+		user = "" // recorded as the empty e-mail address, marked federated
+	}
 	k := len(h.calls)
 	var body []byte
 	if method == "POST" {
@@ -572,7 +587,7 @@ func (h *hist) opUStart(user, method, url string, target int, fs []string, raw b
 		h.e.api.AddFault(fc)
 	}
 	go func() {
-		c.done <- h.e.callN(n, "default", method, url, ident{User: user}, map[string]string{"X-Verif": c.Marker}, body, 45*time.Second, raw)
+		c.done <- h.e.callN(n, "default", method, url, ident{User: wireUser}, map[string]string{"X-Verif": c.Marker}, body, 45*time.Second, raw)
 	}()
 	obs := map[string]interface{}{}
 	deadline := time.Now().Add(6 * time.Second)
@@ -638,7 +653,7 @@ func (h *hist) opUStart(user, method, url string, target int, fs []string, raw b
 	}
 	obs["changed"] = diffKeys(before, h.e.api.Snapshot())
 	obs["gt_backends"] = gt
-	h.emit(map[string]interface{}{"op": "ustart", "k": k, "user": user, "method": method, "url": url, "body_len": len(body), "rid": c.RID, "faults": fs, "raw": raw}, obs)
+	h.emit(map[string]interface{}{"op": "ustart", "k": k, "user": user, "federated": fed, "method": method, "url": url, "body_len": len(body), "rid": c.RID, "faults": fs, "raw": raw}, obs)
 }
 
 // headersMatch: the repeated fields of the posted response arrive complete and in order
@@ -944,7 +959,7 @@ func (h *hist) run(nops int, faultP, bigP float64) {
 		case x < 30:
 			h.opSeen(h.pick(backendIDs), h.pick([]string{"live", "live", "live", "edge-live", "edge-stale", "stale", "old"}))
 		case x < 50: // end-user request
-			user := h.pick(append(append(userMails, "", "allUsers"), userNear...))
+			user := h.pick(append(append(userMails, "", "allUsers", fedUser), userNear...))
 			method := "POST"
 			if h.rng.Intn(4) == 0 {
 				method = "GET"
@@ -1241,7 +1256,7 @@ func (h *hist) scriptRouting() {
 		for i, a := range ages {
 			h.opSeen(fmt.Sprintf("b%d", i), a)
 		}
-		for _, u := range []string{"u0@example.com", "u1@example.com", "u2@example.com", "allUsers", "U0@example.com", "AllUsers"} {
+		for _, u := range []string{"u0@example.com", "u1@example.com", "u2@example.com", "allUsers", "U0@example.com", "AllUsers", fedUser} {
 			for _, p := range []string{"/x", "/a/x", "/a/b/x", "/a/b/c/x", "/s/x", "/a", "/sx", "/my%20notebooks/n", "/%7Eu/h", "/~u/h", "/a%2Fb/x"} {
 				h.opUStart(u, "POST", p, 500, []string{}, false)
 			}
